@@ -641,9 +641,22 @@ fn history_c04<Q: QT>(r: &mut Rng, maxlen: u64, st: &mut Stats, sketch: &Sketch)
             });
             st.order_checks += 1;
             if res.is_err() || q2.limbs_le() != q.limbs_le() {
-                fail(st, opname.clone(), "mismatch", encode_events(&evs), hex_limbs(&q2.limbs_le()),
+                // the original order agreed with the exact sum after every event, so the permuted
+                // order is the one that is wrong: record *it* (as single-term events), so that the
+                // replay, which re-judges a history in recorded order against the exact sum, fails
+                let evs2: Vec<Ev> = perm
+                    .iter()
+                    .map(|t| match (t.0, t.2) {
+                        (false, Some(b)) => Ev { kind: K_ADD_PROD, p: vec![t.1, b] },
+                        (true, Some(b)) => Ev { kind: K_SUB_PROD, p: vec![t.1, b] },
+                        (false, None) => Ev { kind: K_ADD_ONE, p: vec![t.1] },
+                        (true, None) => Ev { kind: K_SUB_ONE, p: vec![t.1] },
+                    })
+                    .collect();
+                fail(st, opname.clone(), "mismatch", encode_events(&evs2), hex_limbs(&q2.limbs_le()),
                      hex_limbs(&q.limbs_le()),
-                     "order dependence: a permutation of the same terms gives a different bit image".into());
+                     format!("order dependence: this order of the same {} terms gives a different bit image \
+                              than the generated order (which matched the exact sum)", perm.len()));
                 return;
             }
         }
